@@ -234,6 +234,10 @@ def run(prog, ctx):
               "%s may be read on a path on which it was never assigned: the branch that factorises the matrix and the branch that uses the "
               "factors are no longer governed by the same condition" % sorted(bad))
 
+    # ------------------------------------------------------------------ D7 / D8 (from round-2 seeds)
+    check_knot_spacing(prog, ctx)
+    check_quadrature_nodes_not_modified(prog, ctx)
+
     # ------------------------------------------------------------------ D5 / D6
     check_bspline_derivatives(prog, ctx)
     check_surplus_ownership(prog, ctx)
@@ -406,3 +410,85 @@ def check_surplus_ownership(prog, ctx):
                       "each %s object creates its own surplus dictionary" % ci.name,
                       "no constructor in the hierarchy of %s assigns self.surplus_values: the dictionary is shared or missing" % ci.qual)
     ctx.floor("C10.D6", n, 2, "basis grid classes using surplus_values")
+
+
+def check_knot_spacing(prog, ctx):
+    """D7: in the local B-spline grid the uniform knot vector of level l, `anchor + i * h`, spans the same interval as the level's
+    points `np.linspace(anchor, E, 2**l + 1)`:  anchor + 2**l * h == E  (polynomial identity; h is looked through)."""
+    from ..absint import poly_of_term
+    n = 0
+    for q in ("Grid.BSplineGrid1D.compute_1D_quad_weights",):
+        fi = prog.func(q)
+        ctx.touch(fi)
+        tm = Terms(fi.node)                       # copy propagation resolves h
+        for loop in [l for l in walk_local(fi.node) if isinstance(l, ast.For)]:
+            lins = [x for st in loop.body for x in ast.walk(st) if isinstance(x, ast.Call) and isinstance(x.func, ast.Attribute) and x.func.attr == "linspace"
+                    and len(x.args) == 3]
+            comps = [x for st in loop.body for x in ast.walk(st) if isinstance(x, ast.ListComp) and isinstance(x.elt, ast.BinOp) and isinstance(x.elt.op, ast.Add)]
+            if not lins or not comps:
+                continue
+            A, E, cnt = (tm.term(a) for a in lins[0].args)
+            P = poly_of_term(cnt) - poly_of_term(("c", "1"))          # 2**l
+            for cmp_ in comps:
+                gen = cmp_.generators[0]
+                if not isinstance(gen.target, ast.Name):
+                    continue
+                t = Terms(fi.node).term(cmp_)
+                if t[0] != "comp":
+                    continue
+                body = t[2]
+                # body = anchor + $0 * h
+                pb = poly_of_term(body)
+                i_atom = ((("bv", "$0"), 1),)
+                lin = {k: v for k, v in pb.terms.items() if (("bv", "$0"), 1) in k}
+                rest = {k: v for k, v in pb.terms.items() if (("bv", "$0"), 1) not in k}
+                if not lin:
+                    continue
+                from ..absint import Poly
+                hpoly = Poly({tuple(x for x in k if x != (("bv", "$0"), 1)): v for k, v in lin.items()})
+                anchor = Poly(rest)
+                n += 1
+                ok = anchor == poly_of_term(A) and (anchor + P * hpoly) == poly_of_term(E)
+                ctx.check(ok, "C10.D7", R.key_of(fi, "knots-span-the-area#%d" % n), fi.loc(cmp_),
+                          "the uniform knots start at the area's left end and reach its right end after 2**l steps",
+                          "the knot vector `%s` does not span the interval of the level's points linspace(%s, %s, ..): anchor + 2**l * h = %r"
+                          % (src(cmp_.elt), show(A), show(E), anchor + P * hpoly))
+    ctx.floor("C10.D7", n, 1, "uniform knot vectors in the local B-spline grid")
+
+
+def check_quadrature_nodes_not_modified(prog, ctx):
+    """D8: get_integral receives the grid's shared Gauss nodes / weights; a local that is updated in place must be a COPY of the
+    parameter (np.array(p), p.copy(), an arithmetic expression), never the parameter itself or np.asarray(p)."""
+    bf = prog.cls(BF + "BasisFunction")
+    n = 0
+    for fi in prog.overrides(bf, "get_integral"):
+        if R.is_stub_body(fi.node):
+            continue
+        ctx.touch(fi)
+        params = set(fi.params[1:])
+        for st in walk_local(fi.node):
+            if not (isinstance(st, ast.AugAssign) and isinstance(st.target, ast.Name)):
+                continue
+            b = R.reaching_unique_def(fi, st.target.id, st.target) if False else None
+            defs = [bb for bb in Terms(fi.node, max_depth=0).env.bindings.get(st.target.id, []) if bb.kind == "assign" and bb.value is not None]
+            aliasing = []
+            for bb in defs:
+                v = bb.value
+                if isinstance(v, ast.Name) and v.id in params:
+                    aliasing.append(bb)
+                elif isinstance(v, ast.Call) and isinstance(v.func, ast.Attribute) and v.func.attr in ("asarray", "asanyarray", "view", "ravel", "reshape", "squeeze") \
+                        and any(isinstance(x, ast.Name) and x.id in params for a_ in list(v.args) + [v.func.value] for x in ast.walk(a_)):
+                    aliasing.append(bb)
+            if not defs:
+                continue
+            n += 1
+            if aliasing:
+                ctx.violation("C10.D8", R.key_of(fi, "in-place-on-parameter:%s" % st.target.id), fi.loc(st),
+                              "`%s` updates `%s` in place, and `%s` binds it to the caller's array without copying: the grid's shared quadrature "
+                              "nodes are rewritten, every later basis integral uses shifted nodes" % (src(st), st.target.id, src(aliasing[0].stmt)))
+                break
+        else:
+            continue
+    if not any(i.rule == "C10.D8" and i.status == "violation" for i in ctx.instances):
+        ctx.ok("C10.D8", BF + "BasisFunction::get_integral-copies", "sparseSpACE/BasisFunctions.py",
+               "%d in-place updates in get_integral overrides, all on copies of the parameters" % n)
